@@ -35,6 +35,19 @@ def obligations(tier):
                          unwindset=SPIN + (["pool_pop_wait.0:5", "pool_pop_timedwait.0:5"] if op == 5 else []), object_bits=10 if op == 5 else None,
                          encodes=["thread_queue_push_tail", "thread_queue_pop_head", "thread_queue_remove", "thread_queue_acquire_spinlock_if_not_empty", "pool_" + opname],
                          bounds="pre-state queue length 0..3, 5 units, unwind 8", symbolic="queue length, order (permutation), operation arguments, pool context flags, clock"))
+    # O4: lock discipline of the operation tables (what ABTI_pool_get_*_def installs for each access mode)
+    ACC = ["PRIV", "SPSC", "MPSC", "SPMC", "MPMC"]
+    for kind, kn in [(0, "fifo"), (1, "fifo_wait"), (2, "randws")]:
+        for a, an in enumerate(ACC):
+            for op, opname in enumerate(OPS):
+                priv = (a == 0 and kind != 1 and opname != "pop_wait")
+                o.append(Obl("lockdisc_%s_%s_%s" % (kn, an, opname), "C07/lockdisc.c",
+                             "%s table for ABT_POOL_ACCESS_%s: %s on a non-empty queue while ANOTHER stream holds the pool lock %s" % (
+                                 kn, an, opname, "runs (private pools have a single owner)" if priv else "must wait: nothing after the call is reachable; twin with the lock free completes"),
+                             defs=["KIND=%d" % kind, "ACCESS=%d" % a, "OP=%d" % op], twin_defs=None if priv else ["LOCKFREE"], unwind=4,
+                             flags=["--no-unwinding-assertions"], backend="cadical", no_std=["--pointer-overflow-check", "--signed-overflow-check", "--undefined-shift-check"],
+                             encodes=["ABTI_pool_get_%s_def" % kn, "pool_" + opname], bounds="2 queued units; spin loops cut after 3 iterations by an unwinding ASSUMPTION (a spinning caller never proceeds)",
+                             symbolic="pool context flags"))
     return o
 
 MANIFEST_ENTRY = {
